@@ -1,7 +1,45 @@
+import AuModel.CommonPoint
+import AuModel.UnitKey
 import Driver.Util
+import Driver.Cmd.C02
+
+/-! Driver commands for C10.
+
+  commonpoint <unitmag>|<count>|<originunitmag> ; …     (count 0 and originunitmag `none` = ZERO origin)
+     →  mag=<pack> opos=<num/den> onative=<int>
+-/
 open Au
 
-def dispatchC10 : List String → Option String
+def parsePointUnit (s : String) : Option (Mag × OriginDecl) :=
+  match s.splitOn "|" with
+  | [um, c, om] => do
+    let um ← parseMag? um
+    if om == "none" then pure (um, none)
+    else do
+      let c ← c.toInt?
+      let om ← parseMag? om
+      pure (um, some (c, om))
   | _ => none
 
-/-! Driver commands for C10. -/
+def cmdCommonPoint (toks : List String) : String :=
+  let items := toks.filter (· ≠ ";")
+  match items.mapM parsePointUnit with
+  | none => "bad-op"
+  | some us =>
+    if us.isEmpty then "bad-op" else
+    match us.mapM (fun u => u.2.toOrigin?) with
+    | none => "irrational-origin"
+    | some origins0 =>
+      let origins := (origins0.zip (List.range origins0.length)).map fun p => { p.1 with id := p.2 }
+      let c := commonOrigin origins
+      -- the declaration that produced the chosen origin
+      let oc : OriginDecl := match us[c.id]? with
+        | some u => u.2
+        | none => none
+      let disp := (us.zip origins).filterMap fun p => dispUnitMag oc p.1.2 c p.2
+      let m := commonPointMag (us.map (·.1)) disp
+      s!"mag={magKey m} opos={c.pos.num}/{c.pos.den} onative={c.native}"
+
+def dispatchC10 : List String → Option String
+  | "commonpoint" :: args => some (cmdCommonPoint args)
+  | _ => none
